@@ -152,7 +152,16 @@ def run(ctx, rep):
     from ..guards import guards_of as _g
     from ..stripe import StripeLoop as _SL
     incs = []
-    for al in [i for i in s.all_insts() if i.op == 'alloca' and i.var == 'unsynced_blocks']:
+    # the counter is the local printed by the tag summary:has_unsynced (no dependence on its name)
+    uns_al = []
+    for c_ in s.calls('log_tag'):
+        o_ = s.strip(c_.ops[0])
+        gn_ = o_[1] if o_[0] == 'g' else (o_[1]['ops'][0][1] if o_[0] == 'ce' and o_[1]['ops'][0][0] == 'g' else None)
+        if gn_ and (P.cstring(gn_) or '').startswith('summary:has_unsynced:'):
+            ld_ = s.inst_of(c_.ops[1])
+            if ld_ is not None and ld_.op == 'load' and s.inst_of(ld_.ops[0]) is not None:
+                uns_al.append(s.inst_of(ld_.ops[0]))
+    for al in uns_al:
         for u in s.users.get(al.id, ()):
             if u.op == 'store' and s.strip(u.ops[1]) == ['i', al.id]:
                 v = s.inst_of(u.ops[0])
@@ -170,6 +179,33 @@ def run(ctx, rep):
                     feeding.add((g_.split('(')[0].lstrip('('), p_))
     want_ = {('block_has_invalid_parity', True), ('block_has_file', True)}
     rep.check(feeding == want_, 'R-C20-4u', 'state_status: ++unsynced_blocks depends on block_has_invalid_parity and block_has_file of the blocks of the stripe', incs[0].loc(), 'predicates feeding the counter: %s' % sorted(feeding), function='state_status', construct='unsynced predicate')
+    # each summary counter is fed by the predicate its tag names (label <-> predicate pairing, independent of local names)
+    rep.rule('R-C20-4c', 'status summary tags: has_bad counts info_get_bad, has_rehash counts info_get_rehash, has_unscrubbed counts info_get_justsynced', 3)
+    want_c = {'has_bad': 'info_get_bad', 'has_rehash': 'info_get_rehash', 'has_unscrubbed': 'info_get_justsynced'}
+    seen_tags = set()
+    for c in s.calls('log_tag'):
+        o = s.strip(c.ops[0])
+        gname = o[1] if o[0] == 'g' else (o[1]['ops'][0][1] if o[0] == 'ce' and o[1]['ops'][0][0] == 'g' else None)
+        fmt_ = P.cstring(gname) if gname else None
+        if not fmt_:
+            continue
+        m_ = re.match(r'^summary:(has_\w+):%u', fmt_)
+        if not m_ or m_.group(1) not in want_c:
+            continue
+        tag = m_.group(1)
+        seen_tags.add(tag)
+        ld = s.inst_of(c.ops[1])
+        al = s.inst_of(ld.ops[0]) if ld is not None and ld.op == 'load' else None
+        preds = set()
+        if al is not None and al.op == 'alloca':
+            for u in s.users.get(al.id, ()):
+                if u.op == 'store' and s.strip(u.ops[1]) == ['i', al.id] and s.inst_of(u.ops[0]) is not None and s.inst_of(u.ops[0]).op == 'add':
+                    for g_, p_ in _g(s, u):
+                        if g_.startswith('info_get_') and p_:
+                            preds.add(g_.split('(')[0])
+        rep.check(preds == {want_c[tag]}, 'R-C20-4c', 'summary:%s counts stripes for which %s holds' % (tag, want_c[tag]), c.loc(), 'counter incremented under %s' % sorted(preds), function='state_status', construct='counter %s' % tag)
+    if seen_tags != set(want_c):
+        raise AnalysisBroken('state_status: summary tags not found: %s' % sorted(set(want_c) - seen_tags))
     # pool
     for fn in ('make_link', 'clean_dir'):
         g = P.fn(fn)
